@@ -37,6 +37,7 @@ package lua
 //@ ensures  "dict-untouched": tb.dict == old(tb.dict) && forall k LValue :: hget(tb, k) == old(hget(tb, k))
 //@ ensures  "keys-grow": len(tb.keys) >= old(len(tb.keys)) && (forall i int :: 0 <= i && i < old(len(tb.keys)) ==> tb.keys[i] == old(tb.keys[i])) && (arrid(tb.keys) == old(arrid(tb.keys)) || fresh(tb.keys))
 //@ ensures  "array-untouched": tb.array == old(tb.array)
+//@ ensures  "maps-same-or-fresh": (tb.dict == old(tb.dict) || fresh(tb.dict)) && (tb.strdict == old(tb.strdict) || fresh(tb.strdict)) && (tb.k2i == old(tb.k2i) || fresh(tb.k2i))
 //@ modifies tb.strdict, tb.keys, tb.k2i, tb.keys[*], tb.strdict{*}, tb.k2i{*}
 
 //@ func (*LTable).RawSetH [C09 C18]
@@ -49,6 +50,7 @@ package lua
 //@ ensures  "others-h": forall k LValue :: !(!isStr(key) && k == key) ==> hget(tb, k) == old(hget(tb, k))
 //@ ensures  "keys-grow": len(tb.keys) >= old(len(tb.keys)) && (forall i int :: 0 <= i && i < old(len(tb.keys)) ==> tb.keys[i] == old(tb.keys[i])) && (arrid(tb.keys) == old(arrid(tb.keys)) || fresh(tb.keys))
 //@ ensures  "array-untouched": tb.array == old(tb.array)
+//@ ensures  "maps-same-or-fresh": (tb.dict == old(tb.dict) || fresh(tb.dict)) && (tb.strdict == old(tb.strdict) || fresh(tb.strdict)) && (tb.k2i == old(tb.k2i) || fresh(tb.k2i))
 //@ modifies tb.dict, tb.strdict, tb.keys, tb.k2i, tb.keys[*], tb.dict{*}, tb.strdict{*}, tb.k2i{*}
 
 // float64 <-> int conversions are uninterpreted (f2i, i2f) in the integer-mode queries; the facts used about them are
